@@ -20,7 +20,10 @@ partial def lineLoop {σ : Type} (step : σ → String → σ × String) (s : σ
   let rec go (s : σ) : IO Unit := do
     let line ← stdin.getLine
     if line.isEmpty then return ()
-    let (s', out) := step s (line.trimAsciiEnd.toString)
+    -- strip the line terminator only: trailing spaces are significant (empty hex fields)
+    let line := if line.endsWith "\n" then (line.dropEnd 1).toString else line
+    let line := if line.endsWith "\r" then (line.dropEnd 1).toString else line
+    let (s', out) := step s line
     stdout.putStrLn out
     go s'
   go s
